@@ -1498,14 +1498,104 @@ def _translate(t, mod, consts, specs):
             return "(Ok PNone)"
         return "(Ok %s)" % _tup([tr.h, "PNone"] + [tr.local(p) for p in mut])
 
-    body = tr.block(node.body, fall_off)
+    stmts = [x for x in node.body if not (isinstance(x, ast.Expr) and isinstance(x.value, ast.Constant))]
+    pre = ""
+    if len(stmts) > CHUNK_OVER and not Tr.has_jump(stmts[:-1]) \
+            and not any(isinstance(x, ast.FunctionDef) for x in stmts):
+        pre, body = _chunked(t, tr, stmts, fall_off)
+    else:
+        body = tr.block(node.body, fall_off)
     fresh = bool(tr.ret_fresh) and all(tr.ret_fresh)
     sig = " ".join("(p_%s : pyval)" % p for p in params)
     rty = "res pyval" if not effectful else "res (%s)" % " * ".join(["heap", "pyval"] + ["pyval"] * len(mut))
     text = "Definition %s (so : set_order) (X : ext_oracle) (h : heap) %s : %s :=\n  %s." % (t.coq, sig, rty, body)
     if effectful:
         text = "(* returns: the heap, the result%s *)\n" % "".join(", the new value of %s" % p for p in mut) + text
-    return text, Spec(t.coq, pos, kwonly, effectful, mut, fresh, tr.ret_alias)
+    return pre + text, Spec(t.coq, pos, kwonly, effectful, mut, fresh, tr.ret_alias)
+
+
+CHUNK_OVER = 12          # a function with more top-level statements is emitted one definition per statement
+
+
+def _stmt_label(s):
+    def names(t):
+        if isinstance(t, ast.Name):
+            return [t.id]
+        if isinstance(t, ast.Starred):
+            return names(t.value)
+        if isinstance(t, (ast.Tuple, ast.List)):
+            return [n for x in t.elts for n in names(x)]
+        if isinstance(t, ast.Attribute):
+            return ["attr", t.attr]
+        if isinstance(t, ast.Subscript):
+            return ["item"] + names(t.value)
+        return ["x"]
+    if isinstance(s, ast.Assign):
+        return "set_" + "_".join(names(s.targets[0]))
+    if isinstance(s, ast.Expr) and isinstance(s.value, ast.Call):
+        f = s.value.func
+        lab = f.id if isinstance(f, ast.Name) else (f.attr if isinstance(f, ast.Attribute) else "x")
+        if lab in ("setattr", "delattr") and len(s.value.args) > 1 and isinstance(s.value.args[1], (ast.Name, ast.Constant)):
+            a = s.value.args[1]
+            lab += "_" + (a.id if isinstance(a, ast.Name) else str(a.value))
+        return "call_" + lab
+    if isinstance(s, ast.For):
+        return "for_" + "_".join(names(s.target))
+    if isinstance(s, ast.If):
+        ns = [n.id for n in ast.walk(s.test) if isinstance(n, ast.Name)]
+        return "if_" + "_".join(ns[:2])
+    if isinstance(s, ast.Return):
+        return "return"
+    return type(s).__name__.lower()
+
+
+def _chunked(t, tr, stmts, fall_off):
+    """one definition per top-level statement (<function>__<label>: from the heap and the locals the statement
+    reads to the heap and the locals it binds), and the function as their composition"""
+    import re
+    defs, steps, used_labels = [], [], {}
+    for i, s in enumerate(stmts):
+        last = i == len(stmts) - 1
+        before_env = dict(tr.env)
+        h_in = tr.h
+        lab = re.sub(r"[^A-Za-z0-9_]", "_", _stmt_label(s)).strip("_") or "stmt"
+        used_labels[lab] = used_labels.get(lab, 0) + 1
+        if used_labels[lab] > 1:
+            lab = "%s_%d" % (lab, used_labels[lab])
+        name = "%s__%s" % (t.coq, lab)
+        if last:
+            term = tr.block([s], fall_off)
+            outs = None
+        else:
+            cell = {}
+
+            def end():
+                changed = [(n, a) for n, a in tr.env.items() if before_env.get(n) != a]
+                cell["outs"] = ([tr.h] if tr.h != h_in else []) + [a for _, a in changed]
+                return "(Ok %s)" % _tup(cell["outs"])
+
+            term = tr.block([s], end)
+            if "outs" not in cell:
+                raise Unsupported("internal: statement %d does not reach its end" % i)
+            outs = cell["outs"]
+        # the parameters: the atoms bound before the statement that its translation mentions
+        cands = ["p_" + p for p in tr.params] + [a for a in before_env.values()]
+        seen, args = set(), []
+        words = set(re.findall(r"[A-Za-z_][A-Za-z0-9_']*", term))
+        for a in cands:
+            if a in words and a not in seen:
+                seen.add(a)
+                args.append(a)
+        uses_h = h_in in words
+        sig = "(so : set_order) (X : ext_oracle) (%s : heap)" % h_in + "".join(" (%s : pyval)" % a for a in args)
+        defs.append("(* %s, statement at line %d *)\nDefinition %s %s :=\n  %s." % (t.origin, s.lineno, name, sig, term))
+        call = "%s so X %s%s" % (name, h_in, "".join(" " + a for a in args))
+        steps.append((outs, call))
+        _ = uses_h
+    out = steps[-1][1]
+    for outs, call in reversed(steps[:-1]):
+        out = "(" + _bind(_pat(outs), call, out) + ")"
+    return "\n\n".join(defs) + "\n\n", out
 
 
 def render():
